@@ -166,8 +166,10 @@ def handle_exception(
             exception,
         )
 
-        # Get attempt count from message (0-indexed) and increment
-        current_attempts = message.attempts or 0
+        # Number of transient failures so far (0-indexed). It is carried in the payload
+        # (retry_count, like StartStage's wait budget): ``attempts`` is the queue's delivery
+        # counter and starts again for every retry message that is pushed.
+        current_attempts = message.retry_count or 0
         max_attempts = message.max_attempts or 10
 
         if current_attempts + 1 < max_attempts:
@@ -221,6 +223,7 @@ def _handle_transient_retry(
 
     # Create new message with incremented attempt count
     retry_message = message.copy_with_attempts(next_attempt)
+    retry_message.retry_count = next_attempt
 
     # Check for context_update from TransientError (stateful retries)
     # Note: bulkman wraps exceptions in BulkheadError, so we need to
